@@ -13,7 +13,7 @@ import z3
 from .sym import UF, _mk_solver, zcheck
 
 SIDE_TIMEOUT_MS = 1500
-MAX_ATOMS = 9
+MAX_ATOMS = 48
 
 stats = {"side_queries": 0, "instances": 0, "secs": 0.0}
 
@@ -37,6 +37,37 @@ def _collect(fmls):
     for f in fmls:
         walk(f)
     return {k: list(v.values()) for k, v in apps.items()}
+
+
+_VARS = {}
+
+
+def _vars(e):
+    """names of the uninterpreted constants below e (memoised)"""
+    k = e.get_id()
+    hit = _VARS.get(k)
+    if hit is not None:
+        return hit[1]
+    acc = set()
+    if z3.is_app(e):
+        if e.num_args() == 0:
+            if e.decl().kind() == z3.Z3_OP_UNINTERPRETED:
+                acc.add(e.decl().name())
+        else:
+            for ch in e.children():
+                acc |= _vars(ch)
+    _VARS[k] = (e, frozenset(acc))
+    return _VARS[k][1]
+
+
+def _compatible(a, b, c=None):
+    """necessary condition for an algebraic relation between the arguments: no argument
+    mentions a symbol that none of the others mentions"""
+    va, vb = _vars(a), _vars(b)
+    if c is None:
+        return va == vb
+    vc = _vars(c)
+    return va <= (vb | vc) and vb <= (va | vc) and vc <= (va | vb)
 
 
 def _valid(pc, claim):
@@ -67,6 +98,8 @@ def instantiate(fmls, timeout_ms=None):
             ax.append(e == 1)
     for a, b in itertools.permutations(E, 2):
         ua, ub = a.arg(0), b.arg(0)
+        if not _compatible(ua, ub):
+            continue
         for n in (-1, 2, -2, 3):
             if _valid(pc, ua == n * ub):
                 if n > 0:
@@ -86,7 +119,7 @@ def instantiate(fmls, timeout_ms=None):
     if len(E) >= 3:
         for a in E:
             for b, c in itertools.combinations([x for x in E if x is not a], 2):
-                if _valid(pc, a.arg(0) == b.arg(0) + c.arg(0)):
+                if _compatible(a.arg(0), b.arg(0), c.arg(0)) and _valid(pc, a.arg(0) == b.arg(0) + c.arg(0)):
                     ax.append(a == b * c)
 
     # ---- log ----------------------------------------------------------------
@@ -101,6 +134,8 @@ def instantiate(fmls, timeout_ms=None):
                 ax.append(l == e.arg(0))
         # monotone facts that are cheap and often needed
     for a, b in itertools.combinations(L, 2):
+        if not _compatible(a.arg(0), b.arg(0)):
+            continue
         if _valid(pc, a.arg(0) == b.arg(0)):
             ax.append(a == b)
         elif _valid(pc, a.arg(0) * b.arg(0) == 1):
@@ -122,7 +157,7 @@ def instantiate(fmls, timeout_ms=None):
         for a in L:
             others = [x for x in L if x is not a]
             for b, c in itertools.combinations(others, 2):
-                if _valid(pc, a.arg(0) == b.arg(0) * c.arg(0)):
+                if _compatible(a.arg(0), b.arg(0), c.arg(0)) and _valid(pc, a.arg(0) == b.arg(0) * c.arg(0)):
                     ax.append(a == b + c)
     # exp(log(v)) = v
     for e in E:
